@@ -10,8 +10,7 @@ def run(ctx):
                "complete as obligations; every E1 lemma carries a bounds obligation per load/store against what the Go caller provides (the .bounds entries)")
     ctx.assume("traversal of deserialized tapes: C19")
     lemma_sets_e1.stage1_lemmas(ctx, ctx.tier)
-    if ctx.tier != "quick":
-        lemma_sets_e1.string_lemmas(ctx, ctx.tier)
+    lemma_sets_e1.string_lemmas(ctx, "quick")      # window/slack bounds of the decoders; deeper runs are C04's thorough tier
     ls = []
     quick = ctx.tier == "quick"
     ls += C03.p2_lemmas(ctx.tier, lengths=(list(range(2, 7)) if quick else None), with_long=not quick)
